@@ -1,5 +1,6 @@
 import Prom.Lemmas.C01Aux
 import Prom.Lemmas.C01Mono
+import Prom.Lemmas.C01FloatMono
 
 namespace Prom.C01
 open Prom Prom.Conc
@@ -363,6 +364,63 @@ theorem reads_real_time_monotone {counter : Bool} {prog : List (List String)} {s
   have hpq := real_time_commit_order h h' hth hth' hret hnot hp hq hxt hyt
   obtain ⟨vi, vj, _, _, h1, h2, h3⟩ := reads_monotone_int (h.trans h') hi hw hpq hp hq hgx hgy
   exact ⟨vi, vj, h1, h2, h3⟩
+
+/-- **reads_monotone_float** — the FLOAT counter: every accepted run of a float cell (any number of
+    threads, any schedule) whose commit log passes the executable step check `floatStepsMonoB` (each
+    committed step of the sequential specification led to a value `>=` the one before, in IEEE order —
+    the driver evaluates exactly this on the commit log of every replayed float-counter run): for any
+    two committed `get`s at positions `i < j` of the commit log, the earlier one returned `hexStr vi`,
+    the later one `hexStr vj`, the values of the cell at those positions, and `vi <= vj` as IEEE
+    doubles. No assumption on `f64Add` is made here. -/
+theorem reads_monotone_float {counter : Bool} {prog : List (List String)} {s : ASt}
+    (h : AReach (aInit true counter prog) s) (hm : floatStepsMonoB 0 s.lin = true)
+    {i j : Nat} (hij : i < j) {x y : LinEv} (hx : s.lin[i]? = some x) (hy : s.lin[j]? = some y)
+    (hgx : opName x.op = "get") (hgy : opName y.op = "get") :
+    ∃ vi vj, (valuesAlong true 0 s.lin)[i]? = some vi ∧ (valuesAlong true 0 s.lin)[j]? = some vj ∧
+      x.rv = hexStr vi ∧ y.rv = hexStr vj ∧ f64Le vi vj = true := by
+  have hl := cell_linearizable h
+  have hf : s.float = true := reach_float h
+  rw [hf] at hl
+  exact spec_reads_monotone_float hl hm hij hx hy hgx hgy
+
+/-- **reads_monotone_float_of_addMono** — the same from the one named fact about IEEE addition
+    (`AddMono`: adding a delta `>= +0` to a value `>= +0` gives a value `>=`, not NaN) instead of the
+    per-run check: every accepted run whose committed operations are `get`s and adds of deltas
+    `>= +0` (`FloatIncOnly`: no `set`, no `reset`, no negative or NaN delta). -/
+theorem reads_monotone_float_of_addMono (ha : AddMono) {counter : Bool} {prog : List (List String)} {s : ASt}
+    (h : AReach (aInit true counter prog) s) (hi : FloatIncOnly s.lin)
+    {i j : Nat} (hij : i < j) {x y : LinEv} (hx : s.lin[i]? = some x) (hy : s.lin[j]? = some y)
+    (hgx : opName x.op = "get") (hgy : opName y.op = "get") :
+    ∃ vi vj, x.rv = hexStr vi ∧ y.rv = hexStr vj ∧ f64Le vi vj = true := by
+  obtain ⟨vi, vj, _, _, h1, h2, h3⟩ :=
+    reads_monotone_float h (floatStepsMonoB_of_addMono ha (by decide) hi) hij hx hy hgx hgy
+  exact ⟨vi, vj, h1, h2, h3⟩
+
+/-- **reads_real_time_monotone_float** — "reads that follow one another in real time never decrease
+    unless `reset()` intervened", for the float counter: in an accepted run whose commit log passes
+    the step check, a `get` that has RETURNED before another `get` is called returned a value `<=`
+    (IEEE) the value the second one returns. -/
+theorem reads_real_time_monotone_float {counter : Bool} {prog : List (List String)} {s s' : ASt}
+    (h : AReach (aInit true counter prog) s) (h' : AReach s s')
+    (hm : floatStepsMonoB 0 s'.lin = true)
+    {t t' : Nat} {th th' : Th APc} (hth : s.ths[t]? = some th) (hth' : s.ths[t']? = some th')
+    {i i' : Nat} (hret : i < th.idx) (hnot : th'.idx < i' ∨ (i' = th'.idx ∧ th'.retv = none))
+    {x y : LinEv} (hx : x ∈ s'.lin) (hy : y ∈ s'.lin)
+    (hxt : x.tid = t ∧ x.idx = i) (hyt : y.tid = t' ∧ y.idx = i')
+    (hgx : opName x.op = "get") (hgy : opName y.op = "get") :
+    ∃ vx vy, x.rv = hexStr vx ∧ y.rv = hexStr vy ∧ f64Le vx vy = true := by
+  obtain ⟨p, hp⟩ := List.getElem?_of_mem hx
+  obtain ⟨q, hq⟩ := List.getElem?_of_mem hy
+  have hpq := real_time_commit_order h h' hth hth' hret hnot hp hq hxt hyt
+  obtain ⟨vi, vj, _, _, h1, h2, h3⟩ := reads_monotone_float (h.trans h') hm hpq hp hq hgx hgy
+  exact ⟨vi, vj, h1, h2, h3⟩
+
+/-- the step check is what the hypothesis rests on: a log whose addition lowered the cell is rejected
+    by it (so the driver reports such a run), and under `AddMono` no increment-only log is -/
+theorem float_step_check_exact (v : UInt64) (x : LinEv) (r : List LinEv) (d : UInt64)
+    (hd : floatDelta x.op = some d) (hbad : f64Le v (f64Add v d) = false) :
+    floatStepsMonoB v (x :: r) = false :=
+  floatStepsMonoB_rejects v x r d hd hbad
 
 /-- the log of the run: thread 0 `inc`, thread 1 `get` (reads 1), thread 0 `reset`, thread 1 `get`
     (reads 0) -/
